@@ -1,6 +1,69 @@
-(* C02 — the property theorems about the scheduler model, and nothing else. *)
+(* C02 — the property theorems about the scheduler model, and nothing else.
+
+   [run (init cfg t0) evs] is the model run over an arbitrary list of events
+   (one event = one critical section of one RPC goroutine, plus hints that
+   only select among admissible tie-breaks); its second component lists the
+   observations of every event.  [call_trace c] keeps the observations tagged
+   with call id c (stream messages OMsg, returns ORet, Synchronize responses
+   OSync).  [fresh_calls [] evs]: every event that starts an RPC uses a call
+   id no earlier event started (the harness numbers calls consecutively).
+   [kind_of evs c]: c was started by Execute or WaitExecution.
+   nonfinal c o :  o = OMsg c _ st None with st <> COMPLETED
+   final c o    :  o = OMsg c _ COMPLETED (Some r)          (the done message)
+   is_end c o   :  o = ORet c code  or  o = OSync c _ _ *)
 From VF Require Import Sched.Proofs.
 Open Scope Z_scope.
+
+(* Overall shape of what one call observes over a whole run: non-final
+   messages, then one of: nothing yet | the done message | (not a stream) its
+   single response | (stream) an error return | (stream) done then return. *)
+Theorem call_trace_shape : forall cfg t0 evs c,
+  fresh_calls [] evs ->
+  exists msgs suf, call_trace c (snd (run (init cfg t0) evs)) = msgs ++ suf /\
+    Forall (nonfinal c) msgs /\
+    (suf = [] \/
+     (exists d, suf = [d] /\ final c d) \/
+     (kind_of evs c = false /\ exists o, suf = [o] /\ is_end c o) \/
+     (kind_of evs c = true /\ exists code, suf = [ORet c code] /\ code <> cOK) \/
+     (kind_of evs c = true /\ exists d code, suf = [d; ORet c code] /\ final c d)).
+Proof. exact call_trace_shape. Qed.
+Print Assumptions call_trace_shape.
+
+(* stream_done_once: at most one done message per stream; everything before it
+   is a non-final message and the only thing that may follow is the return. *)
+Theorem stream_done_once : forall cfg t0 evs c,
+  fresh_calls [] evs ->
+  forall pre d post, call_trace c (snd (run (init cfg t0) evs)) = pre ++ d :: post -> final c d ->
+    Forall (nonfinal c) pre /\ (post = [] \/ exists code, post = [ORet c code]).
+Proof. exact stream_done_once_all. Qed.
+Print Assumptions stream_done_once.
+
+(* nothing_after_done / nothing after the return: once a call returned (or a
+   Synchronize call got its response) it observes nothing more. *)
+Theorem nothing_after_end : forall cfg t0 evs c,
+  fresh_calls [] evs ->
+  forall pre o post, call_trace c (snd (run (init cfg t0) evs)) = pre ++ o :: post -> is_end c o -> post = [].
+Proof. exact nothing_after_end_all. Qed.
+Print Assumptions nothing_after_end.
+
+(* return_follows_done: an Execute / WaitExecution stream returns OK only
+   immediately after its done message. *)
+Theorem return_follows_done : forall cfg t0 evs c,
+  fresh_calls [] evs -> kind_of evs c = true ->
+  forall pre post, call_trace c (snd (run (init cfg t0) evs)) = pre ++ ORet c cOK :: post ->
+    exists pre' d, pre = pre' ++ [d] /\ final c d.
+Proof. exact return_follows_done_all. Qed.
+Print Assumptions return_follows_done.
+
+(* done_faithful: every message of every event (in particular the done
+   message) carries the recorded response and the stage of the operation's
+   task in the state the event leaves behind. *)
+Theorem done_faithful : forall s eh c o st d,
+  In (OMsg c o st d) (snd (step s eh)) ->
+  let s' := fst (step s eh) in
+  d = t_resp (get_task s' (o_task (get_op s' o))) /\ st = task_stage (get_task s' (o_task (get_op s' o))).
+Proof. exact step_done_faithful. Qed.
+Print Assumptions done_faithful.
 
 (* One iteration of operation.waitExecution: if the task has a response the
    message sent is the done message carrying exactly that response and the
@@ -20,3 +83,24 @@ Theorem stream_iter_not_done : forall c o s,
   /\ task_stage x <> 4%N.
 Proof. exact stream_iter_not_done. Qed.
 Print Assumptions stream_iter_not_done.
+
+(* Non-vacuity: a platform queue is registered, a worker parks, an Execute
+   request is handed to it directly, the worker reports completion, the
+   stream is woken twice: the hypotheses hold and the stream sees
+   EXECUTING, done, return OK. *)
+Definition ex_cfg := mkConfig 5 10 30 10 60 3 20.
+Definition ex_w := mkW (mkSK (mkPK [] 0) 1) 7 8.
+Definition ex_evs : list hevent :=
+  [ (ERegister 0 (mkPK [] 0) [] 0 0 [1%N] 1, []);
+    (EStartSync 1 (mkSync ex_w WIdle false) 2, []);
+    (EStartExecute 2 (mkExec [] 0 5 false 0 [] (0%nat, 10, 100, Learner 1 None None)) 3, []);
+    (EEnter 1 4, []);
+    (EStartSync 3 (mkSync ex_w (WCompleted 5 (mkResp 0 0 9)) false) 5, []);
+    (EEnter 2 6, []);
+    (EEnter 2 7, []) ].
+Example ex_fresh : fresh_calls [] ex_evs.
+Proof. cbn. intuition congruence. Qed.
+Example ex_stream : kind_of ex_evs 2 = true /\
+  call_trace 2 (snd (run (init ex_cfg 0) ex_evs))
+  = [OMsg 2 0 3 None; OMsg 2 0 4 (Some (mkResp 0 0 9)); ORet 2 0].
+Proof. split; vm_compute; reflexivity. Qed.
